@@ -679,6 +679,9 @@ func (s *Sim) clientAck(sl *Slot, kind byte, pid uint16) {
 		}
 	case rc.PUBREC:
 		if o != nil {
+			if !o.Pubrec {
+				o.PubrecAt = s.M.Now
+			}
 			o.Pubrec = true
 			sl.expect(&Expect{Kind: rc.PUBREL, PID: pid, Rule: "C07/no-response", What: fmt.Sprintf("PUBREL for PUBREC of %s", o.M.ID), Attrs: map[string]string{"dir": "outbound-qos2"}, Step: s.M.Step, SP: -1})
 		}
